@@ -1,4 +1,6 @@
-"""C01 - exactly one well-formed Gemini response per connection (see contracts/server_events.py)."""
+"""C01 - exactly one well-formed Gemini response per connection (see contracts/server_events.py).
+"No half-written response" on the PyOpenSSL back end additionally needs the transport wrapper to deliver what the protocol writes
+and to close: the clauses of TLSTransportWrapper.write / close tagged C01 (contracts/tls_proto.py) are part of this run."""
 from pyvc.runner import Spec
 from contracts import server_events
 
@@ -6,4 +8,7 @@ from contracts import server_events
 def build(E):
     spec = Spec("C01")
     server_events.build_for(E, spec, "C01")
+    from contracts import tls_proto
+    tls_proto.add_targets(E, spec, "C01")
+    spec.targets = [t for t in spec.targets if "tls_protocol:" not in t[0] or "TLSTransportWrapper" in t[0] or t[0].endswith("._flush_outgoing")]
     return spec
